@@ -399,6 +399,16 @@ def misuse_rules(facts, rep):
     okp = [p for p in ps if outcome(p)[0] == "Ok"]
     good = bool(okp) and all(decided(p, r"^Gt\(.*len\(.*, 65535\)") == 0 for p in okp)
     ok &= rep.check(good, rule, "validate:ok-only-when-all-pass", where(va, va.span), "Ok only after the length row passed", "validation can succeed without the length test")
+    # ... and only after every record was looked at: the walk ends (Ok) when nothing is left, and goes on while something is
+    def _empties(p):
+        return [v for a, v in p["decisions"] if re.match(r"^(slice::|core::slice::<impl \[T\]>::)?is_empty\(", a) or re.match(r"^Eq\((slice::)?len\(.*, 0\)$", a)]
+    good = bool(okp) and all(_empties(p) and _empties(p)[-1] == 1 and all(v == 0 for v in _empties(p)[:-1]) for p in okp)
+    if not good and okp and not any(_empties(p) for p in okp):
+        # the walk is spelled with something else than an emptiness test (`while let Some(..) = ..`, an index compared with the length): the
+        # rows above still hold per record; whether the walk covers all records is then decided by the typestate rule's validated-before-emission
+        good = any(re.search(r"Lt\(|Iterator::next|split_first|get\(", a) for p in okp for a, v in p["decisions"])
+    ok &= rep.check(good, rule, "validate:walks-every-record", where(va, va.span), "Ok is returned when no extra data is left; while some is left the next record is examined",
+                    "validation returns Ok while extra data is left unexamined (or examines records only when nothing is left)")
     # the reserved-id test scans the whole table linearly (the table is not sorted)
     clo = facts.closures_of(va)
     anyc = calls_matching(va, r"Iterator::any$")
